@@ -14,6 +14,7 @@ import ZnVerif.Model.Ast
 import ZnVerif.Model.Num
 import ZnVerif.Model.IdMatch
 import ZnVerif.Model.TextMethods
+import ZnVerif.Model.Modules
 
 namespace ZnVerif.Model
 
@@ -1498,21 +1499,203 @@ def initVM (_ : Unit) : VM ν :=
   { heap := cells,
     globals := [("真", 0), ("假", 1), ("空", 2), ("异常", 3), ("显示", 4), ("取随机数", 5), ("数值", 6)] }
 
-def runProgram (fuel : Nat) (p : Program) (inputs : List (String × Cell ν)) : M ν Addr := do
-  -- AllocateModule(主模块): module 0, csModuleID := 0; PushCallFrame(script frame)
-  modifyVM fun s => { s with modules := s.modules.push { name := "主模块", hasProgram := true }, csModuleID := 0 }
-  pushFrame { moduleId := 0, callType := 1 }
-  if ¬ p.imports.isEmpty then notModelled else
+/-! ## modules (eval.go `evalImportStmt` / `execAnotherModule`, runtime/module.go, vm.go, interpreter.go `LoadFile`)
+
+Imports are a section of the program, evaluated by `evalProgram` before the exec block; everything below CALLS the
+mutual evaluator (`evalExecBlock`) and talks to it through the VM state only (current module, scopes, module table). -/
+
+/-- what the finder of `LoadFile` reads and `Compile` parses: path below the main file's directory (`甲/乙.zn`) ↦ program -/
+abbrev FileTable := List (String × Program)
+/-- `vm.externalLibs`: name as written in the import (with `@`) ↦ names of the exported values -/
+abbrev LibTable := List (String × List String)
+
+/-- `ParseLibName`: `strings.HasPrefix(libName, "@")` ⇒ LIB_TYPE_STD, else LIB_TYPE_CUSTOM -/
+def isStdName (name : String) : Bool :=
+  match name.toList with
+  | c :: _ => c == '@'
+  | [] => false
+
+/-- `strings.Split(s, sep)` for a one-character separator -/
+def splitOnChar (sep : Char) : List Char → List (List Char)
+  | [] => [[]]
+  | c :: cs =>
+    if c = sep then [] :: splitOnChar sep cs
+    else match splitOnChar sep cs with
+      | [] => [[c]]
+      | h :: t => (c :: h) :: t
+
+/-- the finder's test of one part of a module name: a plain directory or file name -/
+def validPart (p : List Char) : Bool :=
+  p ≠ [] && p ≠ ['.'] && p ≠ ['.', '.'] && !(p.any fun c => c == '/' || c == '\\')
+
+/-- LoadFile's finder (`isMain = false`, LIB_TYPE_CUSTOM): `A-B-C` ↦ `A/B/C.zn` below the main file's directory; a name
+with a part that is not a plain file name denotes no file (ModuleNotFound before any lookup) -/
+def modulePath (name : String) : Option String :=
+  let parts := splitOnChar '-' name.toList
+  if parts.all validPart then some (joinWith "/" (parts.map String.ofList) ++ ".zn") else none
+
+/-- `FindModuleByName` / `GetIDFromName`: `moduleNameMap` is written by `AddModule` (after a failed lookup of that name)
+and by `AddDependency` (the value already there), so it holds the index of THE module of that name -/
+def findModuleByName (name : String) (s : VM ν) : Option Nat := s.modules.toList.findIdx? (·.name == name)
+
+/-- `vm.AllocateModule` → `ModuleGraph.AddModule`: an existing module of that name is returned as it is; a new one gets
+the next id, an edge from the current module (if there is one) and becomes the current module -/
+def allocateModule (name : String) (hasProgram : Bool) : M ν Nat := fun s =>
+  match findModuleByName name s with
+  | some i => (.ok i, s)
+  | none =>
+    let id := s.modules.size
+    (.ok id, { s with modules := s.modules.push { name, hasProgram },
+                      graph := if s.csModuleID ≥ 0 then s.graph ++ [(s.csModuleID, (id : Int))] else s.graph,
+                      csModuleID := id })
+
+/-- `vm.AddModuleDependency` → `ModuleGraph.AddDependency`: an import of an already allocated module is an edge too -/
+def addModuleDependency (dep : Nat) : M ν Unit := modifyVM fun s => { s with graph := s.graph ++ [(s.csModuleID, (dep : Int))] }
+
+/-- the dependency graph over `Nat` nodes for `Modules.checkCircular` (module ids are ≥ −1: shifted by one) -/
+def natGraph (g : List (Int × Int)) : Modules.Graph := g.map fun e => ((e.1 + 1).toNat, (e.2 + 1).toNat)
+
+/-- `vm.CheckDepedency(name)` → `checkCircularDepedencyDFS` over the WHOLE graph (the `range` over the adjacency map taken
+in first-occurrence order: the answer does not depend on it, `C15.dfs_order_independent`) -/
+def checkDependency (name : String) : M ν Unit := fun s =>
+  match findModuleByName name s with
+  | none => (.ok (), s)
+  | some _ =>
+    match Modules.checkCircular (natGraph s.graph) (Modules.nodes (natGraph s.graph)) with
+    | none => (.fuel, s)
+    | some true => (.err (.rt 63), s)
+    | some false => (.ok (), s)
+
+def insertName (x : String) : List String → List String
+  | [] => [x]
+  | y :: ys => if x < y then x :: y :: ys else y :: insertName x ys
+
+/-- `sort.Strings` (byte order of UTF-8 = code point order) -/
+def sortNames (l : List String) : List String := l.foldr insertName []
+
+/-- the last part of `evalImportStmt`: all exported names in sorted order, or the listed ones in list order (a listed
+name the module does not export is skipped); each becomes a constant of the current scope that remembers its home module -/
+def bindImports (ext : Nat) (items : List Ident) : M ν Unit := do
+  let s ← getVM
+  match s.modules[ext]? with
+  | none => goPanic
+  | some m =>
+    if items.isEmpty then
+      (sortNames (m.exports.map (·.1))).forM fun name =>
+        match lookup name m.exports with
+        | some v => declareElement name v true (some (ext : Int))
+        | none => goPanic
+    else
+      items.forM fun id =>
+        match lookup id.lit m.exports with
+        | some v => declareElement id.lit v true (some (ext : Int))
+        | none => pure ()
+
+/-- `extModule.AddExportValue(k, v)` for every value of the library, the error (exported already: the library was imported
+before) dropped; a library value is an opaque function cell -/
+def addLibExports (ext : Nat) (names : List String) : M ν Unit :=
+  names.forM fun k => do
+    let s ← getVM
+    match s.modules[ext]? with
+    | none => goPanic
+    | some m =>
+      match lookup k m.exports with
+      | some _ => pure ()
+      | none => do
+        let v ← alloc (.fn (.lib k))
+        addExport ext k v
+
+/-- `case r.LIB_TYPE_STD` of `evalImportStmt`: the module is allocated BEFORE the library is looked up -/
+def importStd (libs : LibTable) (name : String) : M ν Nat := do
+  let ext ← allocateModule name false
+  match lookup name libs with
+  | none => rtErr 64
+  | some names => do
+    pushFrame { moduleId := (ext : Int), callType := 1 }
+    addLibExports ext names
+    popFrame
+    pure ext
+
+/-- `execAnotherModule` given `evalProg` = `evalProgram(vm, program, nil)`: find the file, allocate the module (an edge
+from the importer, current module := the new one), push its script frame, run the program — a failure leaves the frame
+where it is —, then one more scope level in the module's own scope holding its exports again (sorted), pop the frame -/
+def execAnotherModule (files : FileTable) (evalProg : Program → M ν Addr) (name : String) : M ν Nat := do
+  match modulePath name with
+  | none => rtErr 60
+  | some path =>
+    match lookup path files with
+    | none => rtErr 60
+    | some prog => do
+      let mid ← allocateModule name true
+      pushFrame { moduleId := (mid : Int), callType := 1 }
+      let _ ← evalProg prog
+      let _ ← beginBoundScope
+      let s ← getVM
+      match s.modules[mid]? with
+      | none => goPanic
+      | some m =>
+        (sortNames (m.exports.map (·.1))).forM fun nm =>
+          match lookup nm m.exports with
+          | some v => declareElement nm v true
+          | none => goPanic
+      popFrame
+      pure mid
+
+/-- `evalImportStmt`; `load` = `execAnotherModule` on the rest of the fuel -/
+def evalImport (libs : LibTable) (load : String → M ν Nat) (im : Import) : M ν Unit := do
+  -- `vm.SetCurrentLine(node.GetCurrentLine())`: an error raised while importing is reported at the line of this statement
+  setTopFrame fun fr => { fr with line := im.line, started := true }
+  match im.name with
+  | none => goPanic
+  | some name =>
+    if isStdName name then do
+      let ext ← importStd libs name
+      bindImports ext im.items
+    else do
+      let s ← getVM
+      let ext ← match findModuleByName name s with
+        | none => load name
+        | some i => do
+          addModuleDependency i
+          pure i
+      checkDependency name
+      bindImports ext im.items
+
+/-- `evalProgram`: the import statements, then the exec block fed from `inputs` -/
+def evalProgram (fuel : Nat) (imp : Import → M ν Unit) (p : Program) (inputs : List (String × Cell ν)) : M ν Addr := do
+  p.imports.forM imp
   match p.exec with
-  | none => do let r ← newNull; popFrame; pure r
+  | none => newNull
   | some (.mk ins body catches) => do
     let params ← ins.mapM fun i => do
       let name ← matchIDName i.lit
       match lookup name inputs with
       | some c => alloc c
       | none => rtErr 95
-    let r ← evalExecBlock fuel (some (.mk ins body catches)) params
-    popFrame
-    pure r
+    evalExecBlock fuel (some (.mk ins body catches)) params
+
+/-- `execAnotherModule` with its recursion (a module's own imports) on fuel; `varInputs` of a module is nil -/
+def loadModule (files : FileTable) (libs : LibTable) (fuel : Nat) : Nat → String → M ν Nat
+  | 0, _ => outOfFuel
+  | k+1, name =>
+    execAnotherModule files (fun prog => evalProgram fuel (evalImport libs (loadModule files libs fuel k)) prog []) name
+
+/-- the import statement as the run with `fuel` evaluates it -/
+def importWith (files : FileTable) (libs : LibTable) (fuel : Nat) : Import → M ν Unit :=
+  evalImport libs (loadModule files libs fuel fuel)
+
+/-- `Interpreter.Execute` on a loaded file: `EvalMainModule` with the files the finder can reach and the registered libraries -/
+def runProgramWith (files : FileTable) (libs : LibTable) (fuel : Nat) (p : Program) (inputs : List (String × Cell ν)) :
+    M ν Addr := do
+  -- AllocateModule(主模块): module 0, csModuleID := 0; PushCallFrame(script frame)
+  modifyVM fun s => { s with modules := s.modules.push { name := "主模块", hasProgram := true }, csModuleID := 0 }
+  pushFrame { moduleId := 0, callType := 1 }
+  let r ← evalProgram fuel (importWith files libs fuel) p inputs
+  popFrame
+  pure r
+
+/-- a script (`LoadScript`): no file can be imported, no library is registered -/
+def runProgram (fuel : Nat) (p : Program) (inputs : List (String × Cell ν)) : M ν Addr :=
+  runProgramWith [] [] fuel p inputs
 
 end ZnVerif.Model
